@@ -451,6 +451,13 @@ template <class K> struct C11Probe {
             else if (v == 5) { rng.shuffle(l); cls = "permuted(closed)"; }
             else if (v == 6 && KIND == 0) { const auto &t2 = T[rng.below(T.size())]; auto vm2 = e.choose_cell_vertices(t2); auto l2 = e.realise_template(t2, vm2); e.rescan(); l.insert(l.end(), l2.begin(), l2.end()); cls = "two-closed-surfaces"; }
             else if (!lhf.empty()) { l.push_back(rng.pick(lhf)); cls = "extra-face"; }
+            // damaged lists in arbitrary order as well (the hex kernel re-orders non-canonical lists before checking them);
+            // hex: a face of the surface replaced by a foreign quad keeps the length at six
+            if (KIND == 2 && v != 0 && v != 4 && v != 5 && rng.chance(1, 3) && !lhf.empty() && l.size() >= 2) {
+                size_t i = rng.below(l.size()), j = (i + 1 + rng.below(l.size() - 1)) % l.size();
+                if (rng.chance(1, 2)) { l[i] = rng.pick(lhf); cls += "+foreign-face"; } else { l[i] = l[j] ^ 1; cls += "+face-replaced-by-the-other-side-of-another"; }
+                if (l.size() > 6) l.resize(6); }
+            if (v != 0 && v != 4 && v != 5 && rng.chance(1, 2)) { rng.shuffle(l); cls += "+shuffled"; }
             return l;
         }
         if (mode == 6 || (mode == 7 && lc.empty())) {
@@ -481,7 +488,13 @@ template <class K> struct C11Probe {
         auto hfs = random_halfface_list(cls);
         e.rescan();
         // precondition of the property family: no halfface may end up in two live cells -> only free halffaces
-        for (int hf : hfs) if (!e.s.hf_cells[hf].empty()) return;
+        // (a list that must be rejected anyway may contain occupied halffaces: nothing is added)
+        { bool occupied = false; for (int hf : hfs) occupied |= !e.s.hf_cells[hf].empty();
+          bool so = true;
+          if (KIND == 1) { so = hfs.size() == 4; for (int hf : hfs) so &= e.s.fhe[hf >> 1].size() == 3; }
+          if (KIND == 2) { so = hfs.size() == 6; for (int hf : hfs) so &= e.s.fhe[hf >> 1].size() == 4; }
+          if (occupied && closed_surface(hfs) && so) return;
+          if (occupied) cls += "+occupied"; }
         auto before = snap();
         int n0 = e.s.nc;
         bool shape_ok = true;
